@@ -171,6 +171,15 @@ func buildTransfer(r *rand.Rand, upf net.IP, teid uint32) ([]byte, string, error
 			v.PDUSessionAggregateMaximumBitRate = &ngapType.PDUSessionAggregateMaximumBitRate{}
 			v.PDUSessionAggregateMaximumBitRate.PDUSessionAggregateMaximumBitRateDL.Value = bitRateCorner(r)
 			v.PDUSessionAggregateMaximumBitRate.PDUSessionAggregateMaximumBitRateUL.Value = bitRateCorner(r)
+			if r.Intn(4) == 0 {
+				// rates whose OCTETS read as the header of an IE that follows (id of that IE in the low 16 bits of the downlink
+				// rate, then the uplink rate where criticality and length would stand: 00 8B | 00 0A is "id 139, reject, 10
+				// octets"): an element is found by walking the container, never by its looks
+				id := pick(r, int64(139), 139, 139, 136, 134, 138, 129, 127)
+				v.PDUSessionAggregateMaximumBitRate.PDUSessionAggregateMaximumBitRateDL.Value = pick(r, int64(0), 1, r.Int63n(1<<20))<<16 | id
+				v.PDUSessionAggregateMaximumBitRate.PDUSessionAggregateMaximumBitRateUL.Value = pick(r, int64(10), 10, 10, 22, 26, 1, 2, int64(1+r.Intn(60)))
+				desc += "rates-that-read-as-an-ie-header,"
+			}
 		})
 		desc += "ambr,"
 	}
